@@ -85,10 +85,7 @@ func (l *leader) release() {
 	if trace {
 		println(l, "stopping followers")
 	}
-	for id, repl := range l.repls {
-		close(repl.stopCh)
-		delete(l.repls, id)
-	}
+	l.stopRepls()
 	if l.leader == l.nid {
 		l.setLeader(0)
 	}
@@ -107,10 +104,18 @@ func (l *leader) release() {
 		t.reply(err)
 	}
 	l.waitStable = nil
-
-	// wait for replicators to finish
-	l.wg.Wait()
 	l.replUpdateCh = nil
+}
+
+// stopRepls stops the replications and waits for them to finish.
+// they read the log through views: no one may truncate, compact
+// or clear the log while they are running
+func (l *leader) stopRepls() {
+	for id, repl := range l.repls {
+		close(repl.stopCh)
+		delete(l.repls, id)
+	}
+	l.wg.Wait()
 }
 
 func (l *leader) storeEntry(ne *newEntry) {
